@@ -28,7 +28,7 @@ ConvAct(a) == IF a.a \in {"modify", "create"} THEN [a |-> a.a, p |-> a.p, gen |-
 Obs0 == [ctx |-> NoCtx, n |-> 0, log |-> <<>>, hits |-> [c \in CtxNames |-> 0], ticks |-> [c \in CtxNames |-> 0]]
 
 Matches(r, o) == r.ctx = o.ctx /\ r.n = o.n /\ r.log = o.log
-Explaining(F, H, G, pre, arg, o) == { fl \in SUBSET CodeFlags : Matches(Mechanism(F, H, G, pre.ctx, pre.n, arg, fl), o) }
+Explaining(F, H, G, pre, arg, o) == { fl \in SUBSET AllFlags : Matches(Mechanism(F, H, G, pre.ctx, pre.n, arg, fl), o) }
 Smallest(S) == CHOOSE fs \in S : \A g \in S : Cardinality(fs) <= Cardinality(g)
 SetToSeq(S) == LET RECURSIVE F(_)
                    F(T) == IF T = {} THEN <<>> ELSE LET x == CHOOSE y \in T : TRUE IN <<x>> \o F(T \ {x})
